@@ -10,7 +10,7 @@ EXPLANATION = (
     "(R-C10-panic) no undischarged may-panic construct is reachable from MqttState::handle_incoming_packet / handle_outgoing_packet and Network::readb "
     "(same-index guard, contains guard and u16-index discharges for the packet-id tables; audited residue; R-C10-capacity checks the table sizes the discharges rely on); "
     "(R-C10-incoming-first) Event::Incoming is queued before the packet is dispatched and `events` is only push_back'ed / pop_front'ed; "
-    "(R-C10-acks) in handle_incoming_publish the PUBACK/PUBREC is produced exactly on the `!manual_acks` edge of the matching QoS arm and carries the publish's packet id; PUBCOMP only past the incoming_pub.contains check with the PUBREL's id; "
+    "(R-C10-acks) in handle_incoming_publish the PUBACK/PUBREC is produced exactly on the `!manual_acks` edge of the matching QoS arm and carries the publish's packet id; PUBCOMP only past the incoming_pub.contains check with the PUBREL's id, and on every Ok path past it; "
     "(R-C10-announce) every function of MqttState that returns a packet announces it with exactly one Event::Outgoing of the matching kind on that path, nothing but AwaitAck is announced without a packet, "
     "and a packet returned by a callee inside MqttState always flows into the caller's own return value; "
     "(R-C10-unsolicited) each of the four ack handlers has an Err(Unsolicited) exit taken when its table lookup fails. "
@@ -179,6 +179,22 @@ def acks(ctx, prog, ver):
         ctx.ok(rule, r.id, "PUBCOMP only past incoming_pub.contains(pubrel.pkid)")
     else:
         ctx.violation(rule, r.id, "PUBCOMP unguarded", "a PUBCOMP can be produced for a release whose id was never recorded", site=r.fn_loc())
+    # ... and a release of a KNOWN id is always answered: past the contains-true edge no Ok path returns without a PUBCOMP
+    if sw and pk:
+        known = sw[0][1]
+        rets = set(return_blocks(r))
+        errs = set()
+        for bi, blk in enumerate(r.blocks):
+            for st in blk["s"]:
+                if "lhs" in st and st["lhs"]["l"] == 0 and not st["lhs"].get("p") and st["rv"]["k"] == "agg" and st["rv"].get("var") == "Err":
+                    errs.add(bi)
+        silent = reachable(r, (known,), avoid_blocks=tuple(p[0] for p in pk) + tuple(errs)) & rets
+        if silent:
+            ctx.violation(rule, r.id, "known release not answered",
+                          "handle_incoming_pubrel can return Ok without a PUBCOMP after it found (and cleared) the PUBREL's id in incoming_pub: the release of a known id goes unanswered (e.g. a PUBREL carrying a reason code other than Success)",
+                          site=r.fn_loc())
+        else:
+            ctx.ok(rule, r.id, "every Ok path for a known id returns PUBCOMP")
 
 
 def announce(ctx, prog, ver):
